@@ -41,11 +41,14 @@ type Conn struct {
 	Msgs []gen.MsgSpec `json:"msgs,omitempty"`
 	Junk HexBytes      `json:"junk,omitempty"` // bytes already in the receive buffer in front of the stream
 	// Receiver policies.
-	Compact bool   `json:"compact,omitempty"`  // buffer policy: drop consumed bytes after each unit (else keep appending)
-	Obj     int    `json:"obj"`                // -1: brand-new object per unit; >=0: pooled object slot, reset between units and between connections
-	ResetBy int    `json:"reset_by,omitempty"` // sut.ByReset / sut.ByInit
-	Group   int    `json:"group,omitempty"`    // C19: connections of one group carry variants of one request
-	Variant string `json:"variant,omitempty"`  // C19: how this variant differs (informational)
+	Compact bool `json:"compact,omitempty"`  // buffer policy: drop consumed bytes after each unit (else keep appending)
+	Obj     int  `json:"obj"`                // -1: brand-new object per unit; >=0: pooled object slot, reset between units and between connections
+	ResetBy int  `json:"reset_by,omitempty"` // sut.ByReset / sut.ByInit
+	Group   int  `json:"group,omitempty"`    // C19: connections of one group carry variants of one request
+	// Clean: the stream is unmodified generator output (no hostile transform). Oracles that
+	// re-read text independently (C10's parameter scan) assert only on clean streams.
+	Clean   bool   `json:"clean,omitempty"`
+	Variant string `json:"variant,omitempty"` // C19: how this variant differs (informational)
 	// Lock-step shadows to run next to the receiver (DESIGN.md 6.6).
 	ShadowAmple bool `json:"shadow_ample,omitempty"` // C13
 }
